@@ -63,6 +63,7 @@ FIXED = [
     (['C09'], 'reader/rejected/Parsing error/mem | reader/ragged-record-accepted/more', 'CSV string reader lost the last empty value', 'memory input "h1,h2\\n1," (last field empty, no final line break) was rejected with "Number of values are different than in header", and "a;b;c\\r\\n1;2;3;" (one field too many) was accepted'),
     (['C04'], 'document/msgpack/member/float->f32/* (inf, nan)', 'infinity and NaN could not be converted from double to float', 'MsgPack float64 +-infinity / NaN loaded into a float member was reported as Overflow (or skipped) although float represents them; Convert::To<float>(double infinity) threw out_of_range'),
     (['C04', 'C16'], 'document/xml|csv/*/float->int/wrong-value', 'numbers in exponent notation were truncated', 'XML/CSV text "1e+300" loaded into int64_t as 1, "1e+20" into uint32_t as 1, "0.5" into bool as false (only the "1.5" form was rejected): the integer prefix was taken and the exponent ignored'),
+    (['C02'], 'died/msgpack/hang | fuzz/timeout/*', 'endless loop when loading a MsgPack map which contains a NaN key', 'MsgPack map with a NaN float key among several entries (e.g. 83 CB 7FF8000000000000 A1 61 ... ) loaded into std::map<std::string, T> never returned: the enumerated key is passed by reference to its own storage, NaN != NaN made the lookup rescan and restart the enumeration from the first entry forever (found by the libFuzzer stage, kept as a directed canary in the quick tier)'),
 ]
 
 KNOWN = [
